@@ -4,9 +4,11 @@ import (
 	"bufio"
 	"encoding/base64"
 	"encoding/json"
+	"errors"
 	"fmt"
 	"io"
 	"os"
+	"regexp"
 	"runtime/debug"
 	"strings"
 	"time"
@@ -158,7 +160,7 @@ func runHistory(h History) (rep Report) {
 	errs := ms.Process()
 	rep.NErrs = len(errs)
 	phase = "error messages"
-	rep.Errs = lib.CanonErrs(errs)
+	rep.Errs = lib.CanonErrs(unquoted(errs))
 	if os.Getenv("VERIF_C01_RAW") == "1" {
 		for i, e := range errs {
 			if i < 40 {
@@ -185,10 +187,11 @@ func runHistory(h History) (rep Report) {
 			rep.Trees++
 			phase = "walk tree of " + k
 			w.phase = &phase
+			w.maxDepth = 0
 			w.walk(e, 0)
 			phase = "Print " + k
 			if e != nil && w.n < maxWalkNodes {
-				e.Print(io.Discard)
+				printable(e, w.maxDepth).Print(io.Discard)
 			}
 		}
 	}
@@ -207,6 +210,18 @@ func runHistory(h History) (rep Report) {
 	return rep
 }
 
+var quotedRe = regexp.MustCompile(`"[^"]*"`)
+
+// unquoted drops the quoted parts of the messages (user-chosen names and paths, e.g. the entry
+// path "/baz-augment") before they are reduced to classes by keyword.
+func unquoted(errs []error) []error {
+	out := make([]error, len(errs))
+	for i, e := range errs {
+		out[i] = errors.New(quotedRe.ReplaceAllString(e.Error(), `""`))
+	}
+	return out
+}
+
 func walkStmt(s *yang.Statement) int {
 	n := 1
 	_ = s.Location()
@@ -220,10 +235,19 @@ func walkStmt(s *yang.Statement) int {
 }
 
 type walker struct {
-	seen   map[*yang.Entry]bool
-	n      int
-	cyclic string
-	phase  *string
+	seen     map[*yang.Entry]bool
+	n        int
+	cyclic   string
+	phase    *string
+	maxDepth int
+}
+
+// heavyAt decides where the calls whose own cost grows with the square of the depth (Path and
+// Find with the node's own path build a string per ancestor) are made: on every node down to depth
+// 150, below that on every 500th level and on every node without children.  All other calls are
+// made on every node.
+func heavyAt(e *yang.Entry, depth int) bool {
+	return depth <= 150 || depth%500 == 0 || (len(e.Dir) == 0 && e.RPC == nil)
 }
 
 // walk visits e, its Dir and its rpc input / output and calls the read API on each node.
@@ -242,14 +266,19 @@ func (w *walker) walk(e *yang.Entry, depth int) {
 	if w.n > maxWalkNodes {
 		return
 	}
+	if depth > w.maxDepth {
+		w.maxDepth = depth
+	}
 	_ = e.GetErrors()
-	p := e.Path()
 	_ = e.ReadOnly()
 	_ = e.Namespace()
 	_, _ = e.InstantiatingModule()
 	_ = e.DefaultValues()
 	// Find: own path, a bogus path, relative paths
-	_ = e.Find(p)
+	if heavyAt(e, depth) {
+		p := e.Path()
+		_ = e.Find(p)
+	}
 	_ = e.Find("/nosuch:zz/yy")
 	_ = e.Find("/zz")
 	_ = e.Find("../" + e.Name)
@@ -260,6 +289,8 @@ func (w *walker) walk(e *yang.Entry, depth int) {
 		_ = e.Find("input")
 		_ = e.Find("output/zz")
 	}
+	// Print writes an indented listing, quadratic in the depth: from the root when the tree is
+	// shallow, else from the nodes 400 levels above the deepest ones (decided on the way back)
 	for _, k := range lib.SortedKeys(e.Dir) {
 		w.walk(e.Dir[k], depth+1)
 	}
@@ -267,6 +298,29 @@ func (w *walker) walk(e *yang.Entry, depth int) {
 		w.walk(e.RPC.Input, depth+1)
 		w.walk(e.RPC.Output, depth+1)
 	}
+}
+
+// printable returns the node to print: the root of a shallow tree, else the ancestor 400 levels
+// above the first deepest node.
+func printable(root *yang.Entry, maxDepth int) *yang.Entry {
+	if maxDepth <= 400 {
+		return root
+	}
+	e := root
+	for d := 0; d < maxDepth-400; d++ {
+		var next *yang.Entry
+		for _, k := range lib.SortedKeys(e.Dir) {
+			if c := e.Dir[k]; c != nil && (len(c.Dir) > 0 || c.RPC != nil) {
+				next = c
+				break
+			}
+		}
+		if next == nil {
+			break
+		}
+		e = next
+	}
+	return e
 }
 
 // stackHead keeps the frames of a panic stack up to the first few goyang frames (the crash site).
